@@ -206,7 +206,12 @@ func outcomeIn(o outcome, allowed []outcome) bool {
 
 // normTerm removes insignificant spaces of type expressions inside cast[...].
 func normTerm(t string) string {
-	return strings.ReplaceAll(strings.ReplaceAll(t, " ", ""), "interface{}", "any")
+	t = strings.ReplaceAll(strings.ReplaceAll(t, " ", ""), "interface{}", "any")
+	// literal text that is not a basic literal is projected as expr[...]: same class as lit[...]
+	if strings.HasPrefix(t, "expr[") {
+		t = "lit[" + strings.TrimPrefix(t, "expr[")
+	}
+	return t
 }
 
 func fmtAllowed(a []outcome) string {
@@ -401,6 +406,17 @@ func C04(c *core.Ctx) {
 	st := b1.Run(c, b1.Options{Name: "mf", PerFile: 80, Family: "matchfield"}, cases, mfJudge)
 	c.Set("matchfield_cases", st.Cases)
 	c.Set("matchfield_files", st.Files)
+	// struct level: default matching inside nested / embedded / imported structs (programs without notations)
+	_, wc := mCases(c, 1, func(m *wCase) bool { return !mHasNotes(m) })
+	st2 := b1.Run(c, mOptions("m04", false), wc, mJudge(func(v *mVerdicts, m *wCase) ([]string, string) {
+		var p []string
+		if v.failed != "" {
+			p = append(p, v.failed)
+		}
+		p = append(p, v.defaults...)
+		return p, mDescribe(m)
+	}))
+	c.Set("struct_level_cases", st2.Cases)
 	c.Set("exhaustive", c.Thorough())
 	for i := 0; i < len(ms) && i < 3; i++ {
 		j := (i*7919 + 13) % len(ms)
@@ -470,6 +486,12 @@ func C01(c *core.Ctx) {
 	st = b1.Run(c, b1.Options{Name: "hookc01", PerFile: 40, Family: "hooks", Compile: true}, hc,
 		compileJudge(func(r *b1.Result) string { return hookDescribe(r.Case.Data.(*hookCase)) }))
 	c.AddCount("programs", int64(st.Functions))
+	// struct-level walk with notations
+	wm, wc := mCases(c, 3, nil)
+	st = b1.Run(c, mOptions("m01", true), wc,
+		compileJudge(func(r *b1.Result) string { return mDescribe(r.Case.Data.(*wCase)) }))
+	c.AddCount("programs", int64(st.Functions))
+	c.Sample(map[string]any{"family": "matching", "program": mDescribe(wm[len(wm)/2]), "notations": wc[len(wc)/2].Notes})
 	c.Sample(map[string]any{"family": "hooks", "method": hc[len(hc)/2].Method, "notations": hc[len(hc)/2].Notes, "decls": hc[len(hc)/2].Decls})
 	c.Set("disagreements_checked", c.ViolationCount())
 	c.Set("exhaustive", false)
